@@ -327,3 +327,11 @@ func TestC16Conc(t *testing.T) {
 		kinds: map[string]int{"prune_yes": 26, "new_task": 18, "set": 26, "claim": 10, "claim_id": 6, "sequence": 8, "plan": 6},
 		rule:  "a generated store and 2-3 concurrent --json commands weighted to those whose reply describes state (prune --yes, set, claim, new task, plan, sequence), parked / resumed by the controller or free-running; oracle: some serial order of the acknowledged commands must reproduce every reply (pruned ids, claimed task, state and claimant, edges, new ids) - a reply computed from a stale or a later state has none; non-trivial = executions overlap and at least one park landed (or free-running)"})
 }
+
+func TestC05Faults(t *testing.T) {
+	runFaultErrTest(t, "C05", "TestC05Faults", func(rt *rapid.T, w *World, pre *Snapshot) Op { return Op{Kind: "compact"} })
+}
+
+func TestC09Bulk(t *testing.T) {
+	runBulkPruneCrash(t, "C09", "TestC09Bulk")
+}
